@@ -102,7 +102,7 @@ Proof. exact trace_nofuel. Qed.
 (* the design-phase prototype run (DESIGN A.3): two services, readiness [Ok] and
    [P,Ok,Ok,Err,Ok..]; the failing service alone is re-created between two connections *)
 Example C07_example_a3 :
-  let c := mkCfg 3 5000 true [([], []); ([RPend; ROk; ROk; RErr; ROk], [])] in
+  let c := mkCfg 3 5000 [([], []); ([RPend; ROk; ROk; RErr; ROk], [])] in
   trace c [PollW; PushConn 0 0; AcceptInc; PushConn 1 1; AcceptInc; PollW]
   = [ [PollReady 0 ROk; PollReady 1 RPend]; []; []; []; [];
       [PollReady 0 ROk; PollReady 1 ROk; PollReady 0 ROk; PollReady 1 ROk; Call 0 0;
@@ -113,7 +113,7 @@ Proof. vm_compute. reflexivity. Qed.
 
 (* two services failing in the same round: re-created one after the other, connection survives *)
 Example C07_example_two_failures :
-  let c := mkCfg 3 5000 true [([RErr], [CPend]); ([RErr], [])] in
+  let c := mkCfg 3 5000 [([RErr], [CPend]); ([RErr], [])] in
   trace c [PushConn 1 7; AcceptInc; PollW; PollW]
   = [ []; [];
       [PollReady 0 RErr; Create 0; PollCreate 0 CPend];
@@ -124,7 +124,7 @@ Proof. vm_compute. reflexivity. Qed.
 
 (* a Pending service in front of a failing one; a failing factory is the panic *)
 Example C07_example_pending_then_fail :
-  let c := mkCfg 3 5000 true [([RPend], []); ([ROk; RErr], [CErr])] in
+  let c := mkCfg 3 5000 [([RPend], []); ([ROk; RErr], [CErr])] in
   trace c [PushConn 0 0; AcceptInc; PollW; PollW]
   = [ []; []; [PollReady 0 RPend; PollReady 1 ROk];
       [PollReady 0 ROk; PollReady 1 RErr; Create 1; PollCreate 1 CErr; Panic PRestart] ].
@@ -133,7 +133,7 @@ Proof. vm_compute. reflexivity. Qed.
 (* the hypotheses of C07_served / C07_poll_outcome are satisfiable on a non-trivial state:
    after a restart, two connections queued *)
 Example C07_served_example :
-  let c := mkCfg 3 5000 true [([RErr], [CPend])] in
+  let c := mkCfg 3 5000 [([RErr], [CPend])] in
   let s := exec c (init c) [PushConn 0 0; AcceptInc; PushConn 0 1; AcceptInc; PollW] in
   live s /\ sq s = [] /\ cq_open s = true /\ tokens_ok c s /\ benign (svcs s)
   /\ ws s = WRestarting 0 /\ calls_of (snd (poll c s)) = [(0, 0); (0, 1)].
